@@ -529,6 +529,10 @@ impl<Backing : AsRef<[u32]> + AsMut<[u32]>> DrawTarget<Backing> {
             return;
         }
 
+        // every path starts without a current point; don't continue from the previous path
+        self.current_point = None;
+        self.first_point = None;
+
         for op in &path.ops {
             match *op {
                 PathOp::MoveTo(pt) => {
